@@ -669,6 +669,44 @@ func modeRoute(c *Ctx) {
 		}
 		c.SetField(api, "Middlewares", mws)
 	}
+	// the package's own in-process client is one more way into the API: what it
+	// sends is dispatched like any other request, through every middleware
+	if lcm := api.MethodByName("LocalClient"); lcm.IsValid() && lcm.Type().NumIn() == 0 && lcm.Type().NumOut() == 1 && k > 0 {
+		c.SetField(api, "Middlewares", mws)
+		c.SetField(api, "NotFoundHandler", http.Handler(nf))
+		lcl := lcm.Call(nil)[0]
+		for _, op := range c.Ops {
+			if op.Spec == nil || op.ClientM == nil || op.ClientM.Type.In(0) != lcl.Type() {
+				continue
+			}
+			var rawBody string
+			params := c.genParams(&Gen{Rng: c.Rng, Doc: c.Doc}, op, &rawBody)
+			tr = &trace{}
+			_, _, pv := callClient(lcl, op, params)
+			c.Stat("requests", 1)
+			c.Stat("local_client_requests", 1)
+			in := fmt.Sprintf("%s through API.LocalClient()", op.Key)
+			if pv != nil {
+				c.Viol("panic", "client call panicked: "+firstLine(fmt.Sprint(pv)), in, nil, nil)
+				continue
+			}
+			if tr.opRuns != 1 {
+				continue // reached no / another operation: C09's business
+			}
+			enters := 0
+			for _, e := range tr.ev {
+				if strings.HasPrefix(e, "enter") {
+					enters++
+				}
+				if e == "op" {
+					break
+				}
+			}
+			if enters != k {
+				c.Viol("trace-shape", "middleware / handler trace of a routed request has the wrong shape", in, fmt.Sprintf("%d middlewares entered before the operation", k), tr.ev)
+			}
+		}
+	}
 	// CORS enabled but no handler installed: no pseudo-operations, plain matching
 	if hasCORS {
 		corsInstalled = false
